@@ -66,7 +66,9 @@ def check_one(final, obs, elig, sups, tag, viol):
     if isinstance(got, bool) or not isinstance(got, (int, float)):
         viol.append(V('C03|%s|score-type' % tag, 'score is %r' % (got,)))
         return False
-    ok_sum = abs(Fraction(repr(float(got))) - expected) <= Fraction(5, 1000) + Fraction(1, 10 ** 9)
+    # two-decimal rounding, plus the rounding error of adding floats of very different magnitude (a 1e16 score swallows a 0.05)
+    scale = max([abs(v) for v in (M.score_value(o.score) for o in obs) if v is not None] + [Fraction(0)])
+    ok_sum = abs(Fraction(repr(float(got))) - expected) <= Fraction(5, 1000) + Fraction(1, 10 ** 9) + scale * (len(obs) + 1) / 10 ** 15
     if not elig:
         ok = (got == 1) if not hidden else (got == 1 or ok_sum)
         if not ok:
